@@ -184,7 +184,7 @@ def replay(path: str) -> int:
         from harness import sessionrig
         sessionrig.install()
         o = rp.get('opts') or {}
-        print(sessionrig.run_flap_scenario(rp['routes'], rp['cut'], rp['ops'], neighbor_opts={k: v for k, v in o.items() if not k.startswith('_')}, peer_families=o.get('_peer_families')))
+        print(sessionrig.run_flap_scenario(rp['routes'], rp['cut'], rp['ops'], neighbor_opts={k: v for k, v in o.items() if not k.startswith('_')}, peer_families=o.get('_peer_families'), refresh=o.get('_refresh')))
         return 1
     if rp.get('cache_on', True):
         return C04.replay(path)
@@ -238,11 +238,17 @@ def run_flap(ctx: Ctx) -> None:
     sessionrig.install()
     n = 12 if ctx.tier == 'quick' else 200
     seen = set()
-    for i in range(n):
+    # directed: the peer asks for ONE family again while the resynchronisation of two families goes out one route per
+    # turn of the loop (rate-limit), after 0..3 messages
+    v4 = [k for k in sorted(ribrig.NLRIS) if ':' not in ribrig.NLRIS[k]][:2]
+    v6 = [k for k in sorted(ribrig.NLRIS) if ':' in ribrig.NLRIS[k]][:2]
+    directed = [(v4 + v6, [after, variant]) for after in (0, 1, 2, 3) for variant in (0, 1)] if v4 and v6 else []
+    for i in range(len(directed) + n):
         if ctx.time_left() < 10:
             ctx.notes.append('flap stream stopped by the time budget')
             break
-        nl = rng.sample(sorted(ribrig.NLRIS), rng.randrange(1, 5))
+        forced = directed[i] if i < len(directed) else None
+        nl = forced[0] if forced else rng.sample(sorted(ribrig.NLRIS), rng.randrange(1, 5))
         conf = {k: (rng.choice([1, 2, 3]), 1) for k in nl}
         routes_text = [ribrig.route_text(k, a, h) for k, (a, h) in conf.items()]
         cut = rng.randrange(0, len(routes_text) + 3)
@@ -267,8 +273,17 @@ def run_flap(ctx: Ctx) -> None:
         pf = rng.choice([None, None, ['ipv4 unicast', None], ['ipv6 unicast', None]])
         if pf:
             nopts = dict(nopts, _peer_families=pf)
+        # the peer may ask for one family again (ROUTE-REFRESH) while the resynchronisation is still going out: what it
+        # asks for comes (again), what it did not ask for still comes
+        rf = [rng.randrange(0, len(routes_text) + 1), rng.randrange(2)] if rng.random() < 0.4 else None
+        if forced:
+            cut, ops, pf, rf = 0, [], None, forced[1]
+            intended = {ribrig.NLRIS[k]: (a, ribrig.nh_text(k, h)) for k, (a, h) in conf.items()}
+            nopts = {'rate_limit': 1}
+        if rf:
+            nopts = dict(nopts, _refresh=rf)
         try:
-            res = sessionrig.run_flap_scenario(routes_text, cut, ops, neighbor_opts={k: v for k, v in nopts.items() if not k.startswith('_')}, peer_families=pf)
+            res = sessionrig.run_flap_scenario(routes_text, cut, ops, neighbor_opts={k: v for k, v in nopts.items() if not k.startswith('_')}, peer_families=pf, refresh=rf)
         except Exception as e:  # noqa: BLE001
             ctx.disagreements.append(Disagreement('flap-rig', {'routes': routes_text, 'cut': cut, 'ops': ops, 'opts': nopts}, None, f'{type(e).__name__}: {e}'))
             continue
@@ -279,7 +294,7 @@ def run_flap(ctx: Ctx) -> None:
         cfg, nb = sessions.make_config(families='ipv4 unicast ipv6 unicast')
         neg_in = sessions.negotiate(nb, direction=Direction.IN)
         table, eors, (last_update, first_eor) = _flap_decode(neg_in, res['second'])
-        ctx.nontrivial(['flap', sorted(conf), cut, ops])
+        ctx.nontrivial(['flap', sorted(conf), cut, ops, rf, sorted(nopts)])
         ctx.sample({'flap': {'routes': routes_text, 'cut_after': cut, 'ops_while_down': ops, 'second_session': [k for k, _ in res['second']]}}, cap=4)
         problems = []
         if table != intended:
@@ -287,7 +302,7 @@ def run_flap(ctx: Ctx) -> None:
         want_eors = sorted({(1, 1), (2, 1)})
         if sorted(set(eors)) != want_eors or len(eors) != len(set(eors)):
             problems.append(f'End-of-RIB markers {eors}, expected one for each of {want_eors}')
-        if first_eor is not None and last_update > first_eor and not ops_after_eor_allowed(res):
+        if first_eor is not None and last_update > first_eor and not rf and not ops_after_eor_allowed(res):
             problems.append('an End-of-RIB marker precedes part of the initial table')
         if res.get('fsm') != 'ESTABLISHED':
             problems.append(f'second session ended in {res.get("fsm")}')
